@@ -356,7 +356,7 @@ def rule_indentation(prog, fixture=False):
             if ok:
                 # operand: 2 * count(...) possibly through a local
                 rhs = strip_all(n["c"][1])
-                ok = _is_twice_count(fn, rhs)
+                ok = _is_twice_count(fn, rhs, prog=prog)
                 if not ok:
                     why = "adjusted by `%s`, not by 2 per loop token" % show(rhs)
             else:
@@ -366,7 +366,7 @@ def rule_indentation(prog, fixture=False):
     return r
 
 
-def _is_twice_count(fn, e, depth=0):
+def _is_twice_count(fn, e, depth=0, prog=None):
     e = strip_all(e)
     if e is None or depth > 4:
         return False
@@ -375,11 +375,11 @@ def _is_twice_count(fn, e, depth=0):
         ok_any = False
         for v in fn.walk():
             if v.get("k") == "VarDecl" and v.get("d") == e.get("d"):
-                if v.get("c") and folded(v["c"][0]) not in (0, None) and not _is_twice_count(fn, v["c"][0], depth + 1):
+                if v.get("c") and folded(v["c"][0]) not in (0, None) and not _is_twice_count(fn, v["c"][0], depth + 1, prog):
                     return False
             if v.get("k") in ("CompoundAssignOperator", "BinaryOperator") and v.get("op") in flow.ASSIGN_OPS and \
                     strip_all(v["c"][0]).get("d") == e.get("d"):
-                if v.get("op") != "+=" or not _is_twice_count(fn, v["c"][1], depth + 1):
+                if v.get("op") != "+=" or not _is_twice_count(fn, v["c"][1], depth + 1, prog):
                     return False
                 ok_any = True
         return ok_any
@@ -387,20 +387,69 @@ def _is_twice_count(fn, e, depth=0):
         a, b = strip_all(e["c"][0]), strip_all(e["c"][1])
         for x, y in ((a, b), (b, a)):
             if folded(x) == 2:
-                return _is_count(fn, y, depth + 1)
+                return _is_count(fn, y, depth + 1, prog)
     return False
 
 
-def _is_count(fn, e, depth=0):
+def _base_var(e):
+    e = strip_all(e)
+    while e is not None and e.get("k") in ("MemberExpr", "ArraySubscriptExpr") and e.get("c"):
+        e = strip_all(e["c"][0])
+    return e.get("d") if e is not None and e.get("k") == "DeclRefExpr" else None
+
+
+def _counting_function(f):
+    """f returns a local (an int or a struct of ints) that starts at zero and is
+    only ever changed by ++ : whatever it returns is a count of something."""
+    rets = [n for n in f.walk() if n.get("k") == "ReturnStmt" and n.get("c")]
+    if not rets:
+        return False
+    ds = set()
+    for rt in rets:
+        e = strip_all(rt["c"][0])
+        while e is not None and e.get("k") == "CXXConstructExpr" and len(e.get("c", [])) == 1:
+            e = strip_all(e["c"][0])
+        if e is None or e.get("k") != "DeclRefExpr" or e.get("dk") != "Var":
+            return False
+        ds.add(e["d"])
+    if len(ds) != 1:
+        return False
+    d = ds.pop()
+    for n in f.walk():
+        if n.get("k") == "VarDecl" and n.get("d") == d:
+            if not n.get("c"):
+                return False
+            init = strip_all(n["c"][0])
+            zeros = [init] if init.get("k") != "InitListExpr" else init.get("c", [])
+            if any(folded(z) != 0 for z in zeros):
+                return False
+        tgt = None
+        if n.get("k") in ("BinaryOperator", "CompoundAssignOperator") and n.get("op") in flow.ASSIGN_OPS:
+            tgt = n["c"][0]
+        elif n.get("k") == "UnaryOperator" and n.get("op") in ("--",):
+            tgt = n["c"][0]
+        if tgt is not None and _base_var(tgt) == d:
+            return False
+    return any(n.get("k") == "UnaryOperator" and n.get("op") == "++" and _base_var(n["c"][0]) == d for n in f.walk())
+
+
+def _is_count(fn, e, depth=0, prog=None):
     e = strip_all(e)
     if e is None or depth > 5:
         return False
-    if e.get("k") == "CallExpr" and notpl(e.get("q") or "") == "count":
-        return True
+    if e.get("k") == "CallExpr":
+        if prog is not None:
+            ts = prog.call_targets(fn, e)
+            if ts:
+                return all(_counting_function(t) for t in ts)
+        return notpl(e.get("q") or "") == "count"
+    if e.get("k") == "MemberExpr" and e.get("c"):
+        # a field of a struct of counters
+        return _is_count(fn, e["c"][0], depth + 1, prog)
     if e.get("k") == "DeclRefExpr":
         for v in fn.walk():
             if v.get("k") == "VarDecl" and v.get("d") == e.get("d") and v.get("c"):
-                return _is_count(fn, v["c"][0], depth + 1)
+                return _is_count(fn, v["c"][0], depth + 1, prog)
     return False
 
 
